@@ -1,5 +1,5 @@
 //! Shared helpers: option parsing, deterministic RNG, ndjson output.
-#![allow(dead_code)]
+
 use std::collections::HashMap;
 use std::fs::File;
 use std::io::BufRead;
